@@ -83,6 +83,15 @@ CLAIMS = {
              "lastIndex they leave behind.",
         technique="solver-driven exploration of the real RegExp object against a transcribed RegExpBuiltinExec state machine (CrossHair/z3)",
         design_ref="DESIGN.md section 4 (C20)"),
+    "C16": dict(
+        text="Every implemented String.prototype method (and length / index access) is executed on the real "
+             "implementation (VM._make_string_method) with the receiver a solver variable ranging over every BMP "
+             "string up to the length bound, search strings symbolic, and position arguments either symbolic integers "
+             "or solver-chosen indices into an adversarial grid (missing, undefined, null, NaN, infinities, -0, "
+             "fractions, 2**31, 2**32+1, 2**53, 1e21, numeric/junk strings, booleans); results (value and type, arrays "
+             "elementwise) and RangeError/TypeError outcomes must equal the transcription of ECMA-262 22.1.3.",
+        technique="differential symbolic execution of the string built-ins vs a spec transcription (CrossHair/z3)",
+        design_ref="DESIGN.md section 4 (C16)"),
     "C14": dict(
         text="Encoding kernels over all sizes: for every opcode with an operand, Compiler._emit / _emit_jump / "
              "_patch_jump are executed with the operand, the jump target and the code size as solver variables in "
